@@ -15,6 +15,8 @@ pub struct Workload {
     pub frag: bool,
     pub mode: &'static str, // "lines" | "count" | "list" | "context" | "multiline"
     pub placements: Vec<String>,
+    /// Feed the (single) file on standard input instead of naming a path.
+    pub via_stdin: bool,
 }
 
 pub fn gen_workload(sub: u64) -> Workload {
@@ -61,18 +63,23 @@ pub fn gen_workload(sub: u64) -> Workload {
     }
     let binary_flag = ["", "", "--binary", "--text"][rng.below(4)];
     let mode = ["lines", "lines", "lines", "count", "list", "context", "multiline"][rng.below(7)];
-    Workload { corpus, explicit: rng.chance(1, 2), binary_flag, mmap: if rng.chance(1, 2) { "--mmap" } else { "--no-mmap" }, frag: rng.chance(1, 2), mode, placements }
+    let via_stdin = rng.chance(1, 7);
+    if via_stdin {
+        corpus.files.truncate(1);
+        placements.retain(|p| p.starts_with(&format!("{}:", corpus.files[0].0)));
+    }
+    Workload { corpus, explicit: via_stdin || rng.chance(1, 2), binary_flag, mmap: if rng.chance(1, 2) { "--mmap" } else { "--no-mmap" }, frag: rng.chance(1, 2) && !via_stdin, mode, placements, via_stdin }
 }
 
 /// Model lines "w/path:N:text" for the literal pattern foo, detection disabled.
-fn model_lines(path: &str, c: &[u8]) -> Vec<Vec<u8>> {
+fn model_lines(label: &str, c: &[u8]) -> Vec<Vec<u8>> {
     let mut out = vec![];
     let mut n = 0;
     for l in c.split_inclusive(|&b| b == b'\n') {
         n += 1;
         let content = if l.ends_with(b"\n") { &l[..l.len() - 1] } else { l };
         if content.windows(3).any(|w| w == b"foo") {
-            let mut v = format!("w/{path}:{n}:").into_bytes();
+            let mut v = format!("{label}:{n}:").into_bytes();
             v.extend_from_slice(content);
             out.push(v);
         }
@@ -103,7 +110,9 @@ pub fn run_workload(sub: u64, acc: &mut Acc, ctx: &Ctx, _thorough: bool) {
         _ => {}
     }
     args.push("foo".into());
-    if w.explicit {
+    if w.via_stdin {
+        // no path: rg searches standard input (treated like an explicitly named file)
+    } else if w.explicit {
         for (p, _) in &w.corpus.files {
             args.push(format!("w/{p}"));
         }
@@ -111,12 +120,15 @@ pub fn run_workload(sub: u64, acc: &mut Acc, ctx: &Ctx, _thorough: bool) {
         args.push("w".into());
     }
     let plan = if w.frag { vec!["read_frag=11".to_string()] } else { vec!["noop=1".to_string()] };
-    let spec = RunSpec { args, plan, ..RunSpec::default() };
+    let spec = RunSpec { args, plan, stdin: if w.via_stdin { Some(w.corpus.files[0].1.clone()) } else { None }, ..RunSpec::default() };
     let got = ctx.run(&cwd, &spec, 60);
     acc.evals += 1;
     acc.digests.push((sub, digest_out(sub, &got)));
     acc.mix.inc(&format!("{}{}{}", if w.explicit { "explicit" } else { "implicit" }, if w.binary_flag.is_empty() { "/default".to_string() } else { format!("/{}", w.binary_flag) }, format!("/{}", w.mmap)));
     acc.mix.inc(&format!("mode:{}", w.mode));
+    if w.via_stdin {
+        acc.mix.inc("via-stdin");
+    }
     acc.faults.add("read-fragmentation", got.fired("read_frag"));
     for p in &w.placements {
         acc.faults.inc(&format!("NUL:{}", p.split(':').nth(1).unwrap_or("").split('@').next().unwrap_or("")));
@@ -143,8 +155,9 @@ pub fn run_workload(sub: u64, acc: &mut Acc, ctx: &Ctx, _thorough: bool) {
     // per-file outcome model in the line mode
     let out_lines = lines(&got.stdout);
     for (p, c) in &w.corpus.files {
-        let t = model_lines(p, c);
-        let mine: Vec<&[u8]> = out_lines.iter().cloned().filter(|l| l.starts_with(format!("w/{p}:").as_bytes())).collect();
+        let label = if w.via_stdin { "<stdin>".to_string() } else { format!("w/{p}") };
+        let t = model_lines(&label, c);
+        let mine: Vec<&[u8]> = out_lines.iter().cloned().filter(|l| l.starts_with(format!("{label}:").as_bytes())).collect();
         let is_notice = |l: &[u8]| l.windows(19).any(|x| x == b"binary file matches") || l.windows(30).any(|x| x == b"WARNING: stopped searching bin");
         let printed: Vec<&[u8]> = mine.iter().cloned().filter(|l| !is_notice(l)).collect();
         let notices: Vec<&[u8]> = mine.iter().cloned().filter(|l| is_notice(l)).collect();
